@@ -106,7 +106,7 @@ impl Prop for C04 {
     }
 
     fn exhaustive_desc(_tier: Tier) -> String {
-        format!("every real meter payload in corpus-seed/sml ({} files) unmodified, with each single byte deleted at 16 evenly spaced offsets, and truncated at 16 evenly spaced offsets, with and without checksum fix-up; plus the complete single-mutation neighbourhood of 6 real payloads under the grammar-level catalogue ({} mutations: every retype, resize 0..=9, replacement by absent / unsigned / signed / octet of width 0..=9 / boolean / empty list / list of 1..=8 absent markers, drop, dup, insert, swap, wrap, unwrap, tag bytes, extra TLF byte) at every node, checksums recomputed", real_payloads().len(), crate::gen::tree::catalogue().len())
+        format!("every real meter payload in corpus-seed/sml ({} files) unmodified, with each single byte deleted at 16 evenly spaced offsets, and truncated at 16 evenly spaced offsets, with and without checksum fix-up; plus the complete single-mutation neighbourhood of a showcase file (every construct of the subset) and 6 real payloads under the grammar-level catalogue ({} mutations: every retype, resize 0..=9, replacement by absent / unsigned / signed / octet of width 0..=9 / boolean / empty list / list of 1..=8 absent markers, drop, dup, insert, swap, wrap, unwrap, tag bytes, extra TLF byte) at every node, checksums recomputed; plus the complete single-byte neighbourhood of every type-length field of those inputs (each TLF byte replaced by each of the 255 other values)", real_payloads().len(), crate::gen::tree::catalogue().len())
     }
 
     fn exhaustive(_tier: Tier, shard: usize, nshards: usize, f: &mut dyn FnMut(&PInput) -> bool) {
@@ -133,6 +133,7 @@ impl Prop for C04 {
                 g += 1;
             }
         }
-        crate::gen::tree::neighbourhood(shard, nshards, &mut |bytes, how| f(&PInput { bytes, how }));
+        crate::gen::tree::neighbourhood(shard, nshards, &mut |bytes, how| f(&PInput { bytes: bytes.clone(), how }));
+        crate::gen::tree::tlf_byte_neighbourhood(shard, nshards, &mut |bytes, how| f(&PInput { bytes, how }));
     }
 }
